@@ -170,13 +170,16 @@ def _ext(x):
 
 class ndarray(object):
     """lazy symbolic ndarray"""
-    __slots__ = ("buf", "_shape", "imap", "__weakref__")
+    __slots__ = ("buf", "_shape", "imap", "layout", "__weakref__")
     __array_priority__ = 100
 
     def __init__(self, buf, shape=None, imap=None):
         self.buf = buf
         self._shape = tuple(_z(s) for s in (buf.shape if shape is None else shape))
         self.imap = imap
+        # memory layout, as far as it is known: "C" (a whole freshly built array), "F" (its full transpose), None (any other
+        # view).  Only reshape(order="A") depends on it.
+        self.layout = "C" if imap is None else None
 
     # -- construction helpers -------------------------------------------
     @staticmethod
@@ -322,7 +325,13 @@ class ndarray(object):
                 src[a] = idx[k]
             src = tuple(src)
             return old(src) if old else src
-        return ndarray(self.buf, tuple(self._shape[a] for a in axes), imap)
+        r = ndarray(self.buf, tuple(self._shape[a] for a in axes), imap)
+        ident, rev = tuple(range(self.ndim)), tuple(reversed(range(self.ndim)))
+        if axes == ident:
+            r.layout = self.layout
+        elif axes == rev and self.layout in ("C", "F"):
+            r.layout = "F" if self.layout == "C" else "C"
+        return r
 
     def swapaxes(self, a, b):
         ax = list(range(self.ndim))
@@ -363,7 +372,23 @@ class ndarray(object):
     def reshape(self, *shape, **kw):
         if len(shape) == 1 and isinstance(shape[0], (tuple, list)):
             shape = tuple(shape[0])
-        return _reshape(self, shape)
+        order = kw.pop("order", "C")
+        if kw:
+            raise TypeError("reshape() got an unexpected keyword argument %r" % sorted(kw)[0])
+        if order == "A":
+            # NumPy: Fortran index order if the array is Fortran contiguous in memory, C order otherwise
+            if self.ndim <= 1:
+                order = "C"
+            elif self.layout is None:
+                raise OutOfSubset("reshape(order='A') of a view whose memory layout is not tracked")
+            else:
+                order = self.layout
+        if order == "C":
+            return _reshape(self, shape)
+        if order == "F":
+            # column-major reshape = transpose, row-major reshape onto the reversed extents, transpose
+            return _reshape(self.transpose(), tuple(reversed(shape))).transpose()
+        raise OutOfSubset("reshape(order=%r)" % (order,))
 
     # -- indexing ---------------------------------------------------------
     def __getitem__(self, key):
@@ -2108,6 +2133,18 @@ true_divide = _make_ufunc2("true_divide")
 divide = true_divide
 floor_divide = _make_ufunc2("floor_divide")
 power = _make_ufunc2("power")
+
+
+def interp(x, xp, fp, left=None, right=None, period=None):
+    """numpy.interp: an uninterpreted result, one cell per evaluation point (no fact is assumed about its values)"""
+    if period is not None:
+        raise OutOfSubset("np.interp(period=)")
+    x, xp, fp = asarray(x), _need_1d(asarray(xp), "interp"), _need_1d(asarray(fp), "interp")
+    ctx().lib("interp")
+    g = z3.Function(fresh_name("np.interp"), *([z3.IntSort()] * builtins.max(x.ndim, 1) + [z3.RealSort()]))
+    if x.ndim == 0:
+        return _wrap_elem(g(z3.IntVal(0)), "real")
+    return ndarray.from_fn(lambda *i: g(*[zint(k) for k in i]), x._shape, "f", "real")
 
 
 def __getattr__(name):
